@@ -386,3 +386,34 @@ func TestZZFixedD39IndexBlockAboveEof(t *testing.T) {
 		t.Fatalf("after removing both files %d blocks are free, %d were free before they were written: %d leaked", free1, free0, free0-free1)
 	}
 }
+
+// D-40: SYMLINK ignored how many bytes of the target inode.Write stored: when the disk ran out of
+// space after the first block, the link was created with a truncated target and the reply said OK.
+func TestZZFixedD40SymlinkTargetTruncated(t *testing.T) {
+	c := MkNfsClient(100 * 1000)
+	defer c.Shutdown()
+	root := fh.MkRootFh3()
+	blk := bytes.Repeat([]byte{0xab}, 4096)
+	g := c.CreateOp(root, "g").Resok.Obj.Handle
+	for i := uint64(0); c.srv.fsstate.Balloc.NumFree() > 1; i++ {
+		if w := c.WriteOp(g, i*4096, blk, nfstypes.FILE_SYNC); w.Status != 0 {
+			t.Fatalf("fill %d: %d free %d", i, w.Status, c.srv.fsstate.Balloc.NumFree())
+		}
+	}
+	if n := c.srv.fsstate.Balloc.NumFree(); n != 1 {
+		t.Fatalf("could not leave exactly one free block: %d", n)
+	}
+	target := strings.Repeat("abcdefgh", 1024) // 8192 bytes: two blocks
+	r := c.SymLinkOp(root, "l", nfstypes.Nfspath3(target))
+	if r.Status != 0 {
+		t.Logf("SYMLINK refused with status %d (fine: no space for the whole target)", r.Status)
+		if l := c.LookupOp(root, "l"); l.Status == 0 {
+			t.Fatalf("refused SYMLINK left the name behind")
+		}
+		return
+	}
+	rl := c.ReadLinkOp(r.Resok.Obj.Handle)
+	if rl.Status != 0 || string(rl.Resok.Data) != target {
+		t.Fatalf("SYMLINK answered OK but READLINK returns %d of the %d bytes of the target (status %d)", len(rl.Resok.Data), len(target), rl.Status)
+	}
+}
